@@ -479,7 +479,14 @@ def m_hash(I, args, kw):
 
 @model_for(copy.deepcopy, copy.copy)
 def m_deepcopy(I, args, kw):
-    return snapshot_value(args[0], deep=True)
+    r = snapshot_value(args[0], deep=True)
+    if isinstance(r, Obj) and r.meta.get('db') and r is not args[0]:
+        # a copy of a mapped object is a new transient object: it is not the stored row (changes to
+        # it are not flushed); columns not read yet are those of the original
+        r.meta['attached'] = False
+        r.meta['added'] = False
+        r.meta['copy_of'] = args[0]
+    return r
 
 
 def snapshot_value(v, deep=False, memo=None, _top=True):
